@@ -36,6 +36,9 @@ def run(ctx):
     for it in range(n):
         kind = shapes.DEFINED[it % len(shapes.DEFINED)]
         S, d = shapes.make(rng, kind, rng.randint(-4, 4), rng.randint(-4, 4), drv)
+        if it % 2 == 1:
+            S, d, _T, seq = shapes.warm_transform(rng, S, d)       # queries, in-place move/scale, queries: then the integrals
+            ctx.count("warm-transformed")
         tok = shapes.enc_desc(d)
         ctx.sample({"kind": kind, "shape": core.jsonable(d)}, limit=2)
         for (a, b) in (exps if it % 3 == 0 else rng.sample(exps, 5)):
@@ -63,6 +66,18 @@ def run(ctx):
                 scale = max(1.0, max(abs(float(c)) for p in verts for c in p)) ** (a + b + 2)
                 ctx.case("float-moment", (repr(d), "float", a, b))
                 ctx.check(abs(float(got) - float(exp)) <= 1e-9 * scale, "float polygon moment", {"shape": d, "a": a, "b": b}, float(exp), float(got))
+    # ---- very small and nearly centred shapes: values far below 1e-9 are still the exact rationals
+    for sc in (F(1, 100000), F(1, 10 ** 7)):
+        vs = [(x * sc, y * sc) for x, y in [(1, 1), (2, 1), (2, 2), (1, 2)]]
+        S = shapes.simple(vs)
+        for (a, b) in [(0, 0), (1, 0), (2, 2)]:
+            exp = F(drv.ask(f"moment S {core.epoly(vs)} {a} {b}"))
+            ctx.case("tiny-shape-moment", (str(sc), a, b))
+            ctx.check(IntegrateShape.polynomial(S, a, b) == exp and exp != 0, "moment of a tiny shape is not the exact integral", {"vertices": vs, "a": a, "b": b}, exp, IntegrateShape.polynomial(S, a, b))
+        ctx.check(IntegrateShape.area(S) == sc * sc and IntegrateShape.area(~S) == -sc * sc, "area of a tiny shape", {"vertices": vs})
+    off = [(F(-1, 4) + F(1, 10 ** 9), F(-1, 4)), (F(1, 4) + F(1, 10 ** 9), F(-1, 4)), (F(1, 4) + F(1, 10 ** 9), F(1, 4)), (F(-1, 4) + F(1, 10 ** 9), F(1, 4))]
+    ctx.case("tiny-shape-moment", "nearly-centred")
+    ctx.check(IntegrateShape.polynomial(shapes.simple(off), 1, 0) == F(1, 4 * 10 ** 9), "first moment of a nearly centred square", {"vertices": off}, F(1, 4 * 10 ** 9), IntegrateShape.polynomial(shapes.simple(off), 1, 0))
     # ---- curved boundaries with rational control points
     m = 12 if ctx.quick else 300
     maxerr = 0.0
